@@ -561,7 +561,7 @@ func (c *c20) series() {
 		sig1 := append([]byte{}, p1.Content().Sender().Signature()...)
 		_ = fl.CreatePreprepareMessage(H, primitives.View(v2), blk, h2)
 		_ = fp.CreatePrepareMessage(H, primitives.View(v2), h2)
-		fix := &preparedFix{leader: leader, ppSig: pp1.Content().Sender().Signature(), hash: h1, view: v1, blk: blk, ids: [][]byte{id}, sigs: [][]byte{sig1}}
+		fix := &preparedFix{leader: leader, ppSig: pp1.Content().Sender().Signature(), hash: h1, view: v1, pview: v1, phash: h1, blk: blk, ids: [][]byte{id}, sigs: [][]byte{sig1}}
 		fix.pm = &preparedmessages.PreparedMessages{PreprepareMessage: pp1, PrepareMessages: []*interfaces.PrepareMessage{p1}}
 		vcm := f.CreateViewChangeMessage(H, primitives.View(v2), fix.pm)
 		d := c.roundTrip("VIEW_CHANGE with a proof from messages built before later ones of the same factories", vcm, km, ref.VC, inst, h, v2, me, blk)
